@@ -9,7 +9,7 @@ from . import vals as V
 from .vals import I, R, B, EngineError, Arr, SList, Lifted, Tup, Rec, Opt, Func, Ref, PyConst, NONE, NoneV
 from . import extract
 from .extract import StaleContract
-from .contract import (Clause, as_clause, Contract, LoopSpec, REGISTRY, LEMMAS, sort_of, SORTS, NdArray, ListOf,
+from .contract import (Clause, as_clause, Contract, LoopSpec, REGISTRY, LEMMAS, sort_of, SORTS, NdArray, ListOf, GLOBAL_GHOSTS,
                        IntT, RealT, BoolT, TupleOf, FnT)
 
 
@@ -45,6 +45,7 @@ class State:
     def clone(self):
         s = State(dict(self.env), list(self.pc), {k: dict(v) for k, v in self.heap.items()}, self.old, self.nxt)
         s.oldheap = self.oldheap
+        s.decided = dict(getattr(self, "decided", {}))
         s.trace = list(self.trace)
         return s
 
@@ -55,6 +56,14 @@ class State:
             if isinstance(f, bool):
                 f = z3.BoolVal(f)
             self.pc.append(f)
+
+
+class Split(Exception):
+    """an expression needs a case distinction that values cannot express (e.g. a choice between two heap objects):
+    the enclosing statement is re-executed once per case"""
+
+    def __init__(self, cond):
+        self.cond = cond
 
 
 class Outcome:
@@ -170,6 +179,11 @@ class Engine:
         self.c = self.registry[qualname]
         self.fn = extract.find_function(qualname)
         self.loop_labels = extract.label_loops(self.fn)
+        decs = extract.decorators(self.fn)
+        if ("staticmethod" in decs) != bool(self.c.static):
+            raise StaleContract(f"{qualname}: @staticmethod status differs from the contract")
+        if ("property" in decs) != bool(self.c.is_property):
+            raise StaleContract(f"{qualname}: @property status differs from the contract")
         self.obls = []
         self.gfuns = {}
         self.assumptions = assumptions if assumptions is not None else set()
@@ -395,10 +409,25 @@ class Engine:
         st = st.clone()
         st.env["result"] = val
         self.canary_points.append((f"{self.short}/canary/return@{line}", list(st.pc)))
+        for exc, rs in c.raises.items():
+            if rs.get("iff") is not None:
+                cl = as_clause(rs["iff"])
+                self.oblige(st, z3.Not(self.spec(cl, self.entry_view(st))), f"returns-only-when-not-{exc}@{line}", "post",
+                            line, f"not ({cl.text})", cl.props)
         self.prove_all(st, c.ensures, f"post@{line}", "post", line)
         self.frame_obligations(st, line)
 
+    def entry_view(self, st):
+        """the state in which `raises` conditions are read: entry values of the parameters, entry heap"""
+        st2 = State(env={**st.env, **(st.old or {})}, pc=st.pc, heap=st.oldheap if st.oldheap is not None else st.heap,
+                    old=st.old, nxt=st.nxt)
+        st2.oldheap = st.oldheap
+        return st2
+
     def frame_obligations(self, st, line):
+        pass
+
+    def apply_binds(self, callee, sub, cst, st):
         pass
 
     def at_raise(self, o):
@@ -411,10 +440,10 @@ class Engine:
                         f"{o.exc} is never raised")
             return
         st = o.st.clone()
-        when = spec.get("when")
+        when = spec.get("iff", spec.get("when"))
         if when is not None:
             cl = as_clause(when)
-            self.oblige(st, self.spec(cl, st), f"raises-{o.exc}-only-when@{line}", "post", line, cl.text, cl.props)
+            self.oblige(st, self.spec(cl, self.entry_view(st)), f"raises-{o.exc}-only-when@{line}", "post", line, cl.text, cl.props)
         for k, p in enumerate(spec.get("post", [])):
             cl = as_clause(p)
             self.oblige(st, self.spec(cl, st), f"raises-{o.exc}-post#{k}@{line}", "post", line, cl.text, cl.props)
@@ -478,6 +507,35 @@ class Engine:
         st.env[node.targets[0].id] = self.ev(node.value, st, True)
 
     def exec_stmt(self, s, st):
+        snap = st.clone()
+        nobl = len(self.obls)
+        try:
+            return self.exec_stmt1(s, st)
+        except Split as sp:
+            del self.obls[nobl:]
+            self.pending_raises = []
+            outs = []
+            for val in (True, False):
+                st2 = snap.clone()
+                st2.assume(sp.cond if val else z3.Not(sp.cond))
+                st2.decided = dict(getattr(snap, "decided", {}))
+                st2.decided[sp.cond.get_id()] = val
+                outs += self.exec_stmt(s, st2)
+            return outs
+
+    def decide(self, cond, st):
+        """truth of a condition already split on (None if not yet)"""
+        c = z3.simplify(cond)
+        if z3.is_true(c):
+            return True
+        if z3.is_false(c):
+            return False
+        d = getattr(st, "decided", {})
+        if cond.get_id() in d:
+            return d[cond.get_id()]
+        return None
+
+    def exec_stmt1(self, s, st):
         for m in self.STMT_MODELS:
             r = m(self, s, st)
             if r is not NotImplemented:
@@ -535,8 +593,10 @@ class Engine:
         return [Outcome("normal", st)]
 
     def st_Assign(self, s, st):
-        if isinstance(s.value, ast.List) and not s.value.elts and len(s.targets) == 1 and isinstance(s.targets[0], ast.Name) \
-                and s.targets[0].id in self.c.locals:
+        empty = (isinstance(s.value, ast.List) and not s.value.elts) or \
+                (isinstance(s.value, ast.Call) and not s.value.args and not s.value.keywords
+                 and ast.unparse(s.value.func) in ("nb.typed.List", "list"))
+        if empty and len(s.targets) == 1 and isinstance(s.targets[0], ast.Name) and s.targets[0].id in self.c.locals:
             tmpl = self.make_param(V.fresh_name(s.targets[0].id + "_elem"), self.c.locals[s.targets[0].id], st)
             st.env[s.targets[0].id] = SList(z3.IntVal(0), Lifted.fresh(tmpl, s.targets[0].id))
             return [Outcome("normal", st)]
@@ -601,9 +661,10 @@ class Engine:
                 res.append(o)
                 continue
             c = z3.simplify(o.val)
-            if z3.is_true(c):
+            known = self.literally_known(c, o.st)
+            if z3.is_true(c) or known is True:
                 res += self.exec_block(s.body, o.st)
-            elif z3.is_false(c):
+            elif z3.is_false(c) or known is False:
                 res += self.exec_block(s.orelse, o.st)
             else:
                 st_t, st_f = o.st.clone(), o.st
@@ -611,6 +672,15 @@ class Engine:
                 st_f.assume(z3.Not(c))
                 res += self.merge(self.exec_block(s.body, st_t), self.exec_block(s.orelse, st_f), c)
         return res
+
+    def literally_known(self, c, st):
+        """cheap syntactic pruning: the condition (or its negation) is literally among the path facts"""
+        ids = {z3.simplify(f).get_id() for f in st.pc[-40:]}
+        if c.get_id() in ids:
+            return True
+        if z3.simplify(z3.Not(c)).get_id() in ids:
+            return False
+        return None
 
     def merge(self, outs_t, outs_f, c):
         """join two branch results when both ended normally in exactly one state with mergeable environments"""
@@ -1164,7 +1234,13 @@ class Engine:
             return a
         if z3.is_false(z3.simplify(c)):
             return b
-        return V.ite(c, a, b)
+        try:
+            return V.ite(c, a, b)
+        except EngineError:
+            d = self.decide(c, st)
+            if d is None:
+                raise Split(c)
+            return a if d else b
 
     def ex_BinOp(self, e, st, spec):
         a = self.ev(e.left, st, spec)
@@ -1191,8 +1267,7 @@ class Engine:
             return a * b
         if isinstance(op, ast.Div):
             if not spec:
-                self.oblige(st, b != 0, f"div-by-zero@{node.lineno}:{node.col_offset}", "safety:div", node.lineno,
-                            ast.unparse(node))
+                self.div_check(st, b, node)
             return to_real(a) / to_real(b)
         if isinstance(op, ast.FloorDiv):
             if not (is_int(a) and is_int(b)):
@@ -1218,6 +1293,16 @@ class Engine:
                 return r
             raise EngineError("** with a non-constant exponent")
         raise EngineError(f"binary operator {type(op).__name__}")
+
+    def div_check(self, st, b, node):
+        if "ZeroDivisionError" in self.c.raises:
+            bad = st.clone()
+            bad.assume(b == 0)
+            self.pending_raises.append(("ZeroDivisionError", bad))
+            st.assume(b != 0)
+        else:
+            self.oblige(st, b != 0, f"div-by-zero@{node.lineno}:{node.col_offset}", "safety:div", node.lineno,
+                        ast.unparse(node))
 
     def binop_other(self, op, a, b, st, spec, node):
         return NotImplemented
@@ -1522,7 +1607,7 @@ class Engine:
         else:
             kwvals = {}
         pnames = [p for p in callee.params if p not in callee.closure]
-        if recv is not None:
+        if recv is not None and not callee.static:
             argvals = [recv] + list(argvals)
         if len(argvals) > len(pnames):
             raise EngineError(f"too many arguments for {qual}")
@@ -1537,6 +1622,8 @@ class Engine:
         for n in missing:
             d = self.default_arg(qual, n, st)
             cst.env[n] = d
+        for n in pnames:
+            cst.env[n] = self.coerce_arg(callee.params[n], cst.env[n], st)
         sub = self.sub_engine(callee, qual, cst, st)
         cst.old = dict(cst.env)
         cst.oldheap = {k: dict(v) for k, v in st.heap.items()}
@@ -1561,7 +1648,24 @@ class Engine:
                 st.assume(z3.Not(sub.spec(as_clause(rs["iff"]), cst)))
         # havoc what the callee may modify, produce the result
         self.call_frame(callee, cst, st)
-        res = self.fresh_result(callee, qual, cst, st)
+        new_self = None
+        if callee.value_self:
+            # `self` is a record by value: the call produces its new value
+            new_self = self.make_param(V.fresh_name("self"), callee.params["self"], st)
+            st.assume(*self.type_facts(new_self))
+            cst.env["self"] = new_self
+            self.last_new_self = new_self
+        if callee.returns_expr is not None:
+            res = sub.spec(Clause(callee.returns_expr), cst)      # the call returns an existing object (alias)
+        else:
+            res = self.fresh_result(callee, qual, cst, st)
+        self.apply_binds(callee, sub, cst, st)
+        # the final values of the callee's ghost variables are existential witnesses of its ensures clauses
+        for gname, gsort in list(callee.ghost_returns.items()) + [(n, s_[0]) for n, s_ in callee.ghost_vars.items()]:
+            gv = V.fresh(gname, sort_of(gsort))
+            cst.env[gname] = gv
+            st.env.setdefault("$ghost_returns", {})
+            st.env["$ghost_returns"] = {**st.env["$ghost_returns"], gname: gv}
         cst.env["result"] = res
         for cl in callee.ensures:
             st.assume(sub.spec(cl, cst))
@@ -1596,6 +1700,9 @@ class Engine:
             lst = State(env=dict(cst.env), pc=st.pc, heap=st.heap, old=cst.old, nxt=st.nxt)
             st.assume(sub.lemma_statement(lem, lst))
 
+    def coerce_arg(self, t, v, st):
+        return v
+
     def call_frame(self, callee, cst, st):
         pass
 
@@ -1618,6 +1725,12 @@ class Engine:
 
     # ---- spec-only functions
     def spec_call(self, name, e, st):
+        if name == "ghost":
+            gname = e.args[0].value if isinstance(e.args[0], ast.Constant) else e.args[0].id
+            gr = st.env.get("$ghost_returns", {})
+            if gname not in gr:
+                raise EngineError(f"no ghost output named {gname} is available here")
+            return gr[gname]
         if name in ("forall", "exists"):
             return self.quantifier(name, e, st)
         if name == "implies":
@@ -1656,6 +1769,8 @@ class Engine:
             a, k = [self.ev(x, st, True) for x in e.args]
             return self.psum_fun(a.dtype if isinstance(a, Arr) else ("int" if name == "psum" else "f64"), st)(
                 a.data if isinstance(a, Arr) else a, k)
+        if name in GLOBAL_GHOSTS and name not in self.gfuns:
+            self.use_global_ghost(name, st)
         if name in self.gfuns:
             args = [self.ev(a, st, True) for a in e.args]
             zs = [a.data if isinstance(a, Arr) else a for a in args]
@@ -1677,6 +1792,16 @@ class Engine:
 
     def wrap_bound(self, x):
         return x
+
+    def use_global_ghost(self, name, st):
+        g = GLOBAL_GHOSTS[name]
+        if g.decl is None:
+            g.decl = z3.Function(name, *g.arg_sorts, g.ret_sort)
+        self.gfuns[name] = g.decl
+        blank = State(env={}, pc=[], heap={}, nxt=st.nxt)
+        for ax in g.axioms:
+            self.global_axioms = list(self.global_axioms) + [self.spec(ax, blank)]
+        self.psum_used = True
 
     def quantifier(self, name, e, st):
         """forall(x, lo, hi, body) | forall(x, body) | forall([x, (y, Sort)], body); directly nested quantifiers of
